@@ -83,6 +83,7 @@ struct CallOutcome {
 }
 
 async fn scenario(ctx: &Ctx, rng: &mut Rng, epmd: &net::EpmdTable, id: usize, script: Script, yields: bool) {
+    ctx.beat(&format!("{:?}/scenario {} first wave", script, id));
     let name = format!("x{}", id);
     let pl = net::listen_as(epmd, &name).await;
     let callers = *rng.pick(&[1usize, 2, 3, 5, 8, 16, 64]);
@@ -321,6 +322,7 @@ async fn scenario(ctx: &Ctx, rng: &mut Rng, epmd: &net::EpmdTable, id: usize, sc
         Err(e) => ctx.viol("C17:caller-panicked", "panic", wit(json!({"panic": e.to_string()}))),
     }
     // second wave of calls: outstanding while the peer delivers the stragglers of the first wave
+    ctx.beat(&format!("{:?}/scenario {} second wave", script, id));
     {
         let mut hs = Vec::new();
         for c in 0..wave2 {
@@ -383,6 +385,7 @@ async fn scenario(ctx: &Ctx, rng: &mut Rng, epmd: &net::EpmdTable, id: usize, sc
     // calls racing with the loss of the connection: callers keep issuing short calls while the peer's socket goes
     // away at an arbitrary moment and the receiver task deregisters the connection; whatever each call returns,
     // nothing may stay behind
+    ctx.beat(&format!("{:?}/scenario {} disconnect race", script, id));
     {
         // widen the window between registering a call and looking its connection up (an existing suspension point)
         let h2 = hits.clone();
